@@ -19,6 +19,11 @@ import (
 	perptypes "github.com/elys-network/elys/x/perpetual/types"
 	tiertypes "github.com/elys-network/elys/x/tier/types"
 
+	"cosmossdk.io/math"
+	lptypes "github.com/elys-network/elys/x/leveragelp/types"
+	sstypes "github.com/elys-network/elys/x/stablestake/types"
+	tstypes "github.com/elys-network/elys/x/tradeshield/types"
+
 	"verifharness/chain"
 	"verifharness/run"
 )
@@ -64,7 +69,35 @@ func init() {
 			q("/elys.tradeshield.Query/PendingSpotOrderAll", nil), q("/elys.accountedpool.Query/AccountedPoolAll", nil),
 			q("/cosmos.bank.v1beta1.Query/TotalSupply", nil),
 		}
-		var nCheck, nQuery, nQueryOK int64
+		// full message execution concurrent with block production: the transaction service's Simulate
+		// runs the ante handler and every message handler of a signed transaction on a branch of the
+		// check state, in the caller's goroutine, while FinalizeBlock executes handlers of the same
+		// keepers (a keeper caching anything in a field or a package variable races here)
+		sim := spam[1]
+		sa := sim.S()
+		simMsgs := []sdk.Msg{
+			&ammtypes.MsgSwapExactAmountIn{Sender: sa, Routes: []ammtypes.SwapAmountInRoute{{PoolId: 1, TokenOutDenom: "uatom"}}, TokenIn: chain.Coin("uusdc", 25_000_000), TokenOutMinAmount: math.NewInt(1)},
+			&ammtypes.MsgSwapExactAmountOut{Sender: sa, Routes: []ammtypes.SwapAmountOutRoute{{PoolId: 2, TokenInDenom: "uusdc"}}, TokenOut: chain.Coin("uelys", 3_000_000), TokenInMaxAmount: math.NewInt(1e13)},
+			&ammtypes.MsgSwapByDenom{Sender: sa, Amount: chain.Coin("uatom", 1_000_000), MinAmount: chain.Coin("uusdc", 1), DenomIn: "uatom", DenomOut: "uusdc"},
+			&ammtypes.MsgJoinPool{Sender: sa, PoolId: 2, MaxAmountsIn: sdk.NewCoins(chain.Coin("uusdc", 40_000_000)), ShareAmountOut: math.NewInt(1)},
+			&ammtypes.MsgJoinPool{Sender: sa, PoolId: 1, MaxAmountsIn: sdk.NewCoins(chain.Coin("uatom", 5_000_000)), ShareAmountOut: math.NewInt(1)},
+			&perptypes.MsgOpen{Creator: sa, Position: perptypes.Position_LONG, Leverage: chain.Dec("3"), TradingAsset: "uatom", Collateral: chain.Coin("uusdc", 50_000_000), TakeProfitPrice: chain.Dec("0"), StopLossPrice: chain.Dec("0"), PoolId: 1},
+			&perptypes.MsgOpen{Creator: sa, Position: perptypes.Position_SHORT, Leverage: chain.Dec("2"), TradingAsset: "uatom", Collateral: chain.Coin("uusdc", 50_000_000), TakeProfitPrice: chain.Dec("0"), StopLossPrice: chain.Dec("0"), PoolId: 1},
+			&lptypes.MsgOpen{Creator: sa, CollateralAsset: "uusdc", CollateralAmount: math.NewInt(30_000_000), AmmPoolId: 1, Leverage: chain.Dec("2"), StopLossPrice: chain.Dec("0")},
+			&sstypes.MsgBond{Creator: sa, Amount: math.NewInt(10_000_000)},
+			&mctypes.MsgClaimRewards{Sender: sa, PoolIds: []uint64{1, 2}},
+			&commitmenttypes.MsgClaimVesting{Sender: sa},
+			&tiertypes.MsgSetPortfolio{Creator: sa, User: u3},
+			&tstypes.MsgCreateSpotOrder{OrderType: tstypes.SpotOrderType_LIMITBUY, OrderPrice: tstypes.OrderPrice{BaseDenom: "uusdc", QuoteDenom: "uatom", Rate: chain.Dec("0.1")}, OrderAmount: chain.Coin("uusdc", 1_000_000), OwnerAddress: sa, OrderTargetDenom: "uatom"},
+			&banktypes.MsgSend{FromAddress: sa, ToAddress: u3, Amount: sdk.NewCoins(chain.Coin("uusdc", 1))},
+		}
+		simRaw := [][]byte{}
+		for _, m := range simMsgs {
+			if raw, err := chain.SignTx(w.App.TxConfig(), chain.ChainID, sim.Priv, sim.Num, 0, nil, m); err == nil {
+				simRaw = append(simRaw, raw)
+			}
+		}
+		var nCheck, nQuery, nQueryOK, nSim, nSimOK int64
 		stop := make(chan struct{})
 		var wg sync.WaitGroup
 		for gi := 0; gi < 4; gi++ {
@@ -82,8 +115,14 @@ func init() {
 					mu.RLock()
 					func() {
 						defer func() { recover() }()
-						if gi == 0 {
-							ac := spam[i%2]
+						if gi == 1 {
+							_, _, err := w.App.Simulate(simRaw[i%len(simRaw)])
+							atomic.AddInt64(&nSim, 1)
+							if err == nil {
+								atomic.AddInt64(&nSimOK, 1)
+							}
+						} else if gi == 0 {
+							ac := spam[0]
 							raw, err := chain.SignTx(w.App.TxConfig(), chain.ChainID, ac.Priv, ac.Num, uint64(i), nil, &banktypes.MsgSend{FromAddress: ac.S(), ToAddress: u3, Amount: sdk.NewCoins(chain.Coin("uusdc", 1))})
 							if err == nil {
 								w.App.CheckTx(&abci.RequestCheckTx{Tx: raw, Type: abci.CheckTxType_New})
@@ -114,6 +153,11 @@ func init() {
 		c.EvN("concurrent_checktx", atomic.LoadInt64(&nCheck))
 		c.EvN("concurrent_queries", atomic.LoadInt64(&nQuery))
 		c.EvN("concurrent_queries_ok", atomic.LoadInt64(&nQueryOK))
+		c.EvN("concurrent_simulate", atomic.LoadInt64(&nSim))
+		c.EvN("concurrent_simulate_ok", atomic.LoadInt64(&nSimOK))
+		if nSim > 0 && nSimOK == 0 {
+			c.Inconclusive = "no concurrent Simulate call succeeded"
+		}
 		st := statsOf(c, "C19")
 		st.EvalCase(fmt.Sprintf("race|%d|%d|%d", w.Height, nCheck, nQuery))
 		st.EvalCase(fmt.Sprintf("race-blocks|%d", w.Height))
@@ -145,7 +189,7 @@ func init() {
 							break
 						}
 						if strings.HasPrefix(f, "/") { // file:line of the previous frame
-							if strings.HasPrefix(f, "/repo/") && k <= 3 {
+							if (strings.Contains(f, "/repo/x/") || strings.Contains(f, "/repo/app/")) && k <= 3 {
 								inTarget = true
 							}
 							continue
@@ -179,6 +223,6 @@ func init() {
 			}
 		}
 		c.Extra["race_reports_outside_target"] = outside
-		st.Sample(map[string]interface{}{"case": "race-detector build", "blocks": w.Height, "concurrent_checktx": nCheck, "concurrent_queries": nQuery, "queries_ok": nQueryOK, "distinct_race_reports": len(keys)})
+		st.Sample(map[string]interface{}{"case": "race-detector build", "blocks": w.Height, "concurrent_checktx": nCheck, "concurrent_queries": nQuery, "queries_ok": nQueryOK, "concurrent_simulate": nSim, "simulate_ok": nSimOK, "distinct_race_reports": len(keys)})
 	})
 }
